@@ -600,11 +600,14 @@ package prunner
 //@   modifies map(map[uuid.UUID]*PipelineJob), map(map[string][]*PipelineJob), mem(*PipelineJob), $clock, $logsRemoved, $logsRemoveFailed, $savedData, $saveCalls, $passes, $wgWaited, $wgTokens, $passDom
 //@   at call (*PipelineRunner).SaveToStore#1: assert [C11.finalSave] $wgWaited
 
+//@ pure loadedTaskOf(t *jobTask, e *store.PersistedTask) bool = t.Name == e.Name && t.Script == e.Script && t.DependsOn == e.DependsOn && t.AllowFailure == e.AllowFailure && t.Status == e.Status && t.Start == e.Start && t.End == e.End && t.Skipped == e.Skipped && t.ExitCode == e.ExitCode && t.Errored == e.Errored && (e.Error == nil ==> t.Error == nil)
 //@ func buildJobFromPersistedJob
 //@   safety
 //@   lockmode any
 //@   ensures  [fresh] res != nil && fresh(res) && !$pub[res] && fresh(base(res.Tasks))
 //@   ensures  [C10.buildView] res.ID == pJob.ID && res.Pipeline == pJob.Pipeline && res.Completed == pJob.Completed && res.Canceled == pJob.Canceled && res.Created == pJob.Created && res.Start == pJob.Start && res.End == pJob.End && res.Variables == pJob.Variables && res.User == pJob.User && len(res.Tasks) == len(pJob.Tasks) && res.sched == nil && res.startTimer == nil
+//@   ensures  [C10.buildTasks] forall k :: 0 <= k && k < len(pJob.Tasks) ==> loadedTaskOf(res.Tasks[k], pJob.Tasks[k])
+//@   loop 1 invariant [C10.buildTasks] forall k :: 0 <= k && k <= $i ==> loadedTaskOf(tasks[k], pJob.Tasks[k])
 //@   ensures  [C10.lastError] (pJob.LastError == nil ==> res.LastError == nil) && (pJob.LastError != nil && *pJob.LastError != "" ==> res.LastError != nil)
 //@   modifies nothing
 //@   loop 1 invariant [bounds] 0 <= $i + 1 && $i + 1 <= len(pJob.Tasks) && fresh(base(tasks)) && len(tasks) == len(pJob.Tasks) && off(tasks) == 0 && !$pub[job] && fresh(job)
